@@ -527,6 +527,7 @@ pub fn run(mode: Mode, run: &Run) {
     idx.par_iter().for_each(|&i0| {
         let i = (i0 + seed) % total;
         let t = &tasks[i];
+        let _w = run.watch("task", "task_key", &t.key());
         let r = std::panic::catch_unwind(std::panic::AssertUnwindSafe(|| check_task(Some(run), mode, t)));
         match r {
             Err(e) => {
@@ -556,6 +557,7 @@ pub fn run(mode: Mode, run: &Run) {
         }
         run.set_extra("strong_pairs_generated", json!(pairs.len()));
         pairs.par_iter().for_each(|(l, r)| {
+            let _w = run.watch("strong_pair", "pair", &format!("{l} || {r}"));
             let res = std::panic::catch_unwind(std::panic::AssertUnwindSafe(|| check_strong_flags(run, l, r)));
             if let Ok(v) = res {
                 for (k, d) in v {
